@@ -331,11 +331,12 @@ def run(ctx):
                facts={'net effect': repr(got), 'metamath': repr(expected)})
     ctx.analysed['replay-loop paths'] = n_paths
     tail = [n for n in fn.body if n.lineno > loop.end_lineno]
-    ends = [s for s in loop.body if isinstance(s, ast.If)]
-    last = ends[-1] if ends else None
-    while last is not None and len(last.orelse) == 1 and isinstance(last.orelse[0], ast.If):
-        last = last.orelse[0]
-    ctx.ob('dispatch-ends-raising', 'exec_proof', last is not None and bool(last.orelse) and isinstance(last.orelse[-1], ast.Raise),
+    # a label that is in none of the converter's tables must raise: on every path of the loop body on which the step is a label and all
+    # `LABEL in <table>` tests fail (whatever the shape of the chain)
+    unknown = [sp for sp in astpaths.paths(loop.body)
+               if sp.holds(f'{LV} in {PROOF}.labels') is not False
+               and [c for c, b in sp.conds if c.startswith(f'{LABEL} in ')] and all(not b for c, b in sp.conds if c.startswith(f'{LABEL} in '))]
+    ctx.ob('dispatch-ends-raising', 'exec_proof', bool(unknown) and all(sp.end == 'raise' for sp in unknown),
            'the label dispatch of exec_proof must end in a raising branch (an unrecognised label would otherwise be skipped)', where)
 
     operand_positions(ctx, py, fn, local_defs, theory, STACK, receivers, LABEL, loop)
@@ -408,13 +409,24 @@ def pattern_arms(ctx, py, eff):
     """Interpreter.pattern(p) pushes exactly one entry: by induction on p, every arm nets +1 given that recursive calls do"""
     fn = py.method('Interpreter', 'pattern', 'interpreter')
     m = [n for n in fn.body if isinstance(n, ast.Match)]
-    ctx.require(len(m) == 1, 'Interpreter.pattern: match statement not found')
+    # the arms: the cases of a `match` on the pattern, or the paths of an isinstance chain grouped by the class that is tested
+    arms: dict[str, tuple] = {}
+    if len(m) == 1:
+        for case in m[0].cases:
+            arms[ast.unparse(case.pattern).split('(')[0]] = (astpaths.paths(case.body), case.body[0])
+    else:
+        P = fn.args.args[1].arg
+        for sp in astpaths.paths(fn.body):
+            cls = [c[len(f'isinstance({P}, '):-1] for c, b in sp.conds if b and c.startswith(f'isinstance({P}, ') and c.endswith(')')]
+            if cls:
+                prev = arms.get(cls[0], ([], sp.actions[0] if sp.actions else fn))
+                arms[cls[0]] = (prev[0] + [sp], prev[1])
+    ctx.require(len(arms) >= 2, 'Interpreter.pattern: neither a match statement nor an isinstance chain over the pattern found')
     n_arms = 0
-    for case in m[0].cases:
-        name = ast.unparse(case.pattern).split('(')[0]
+    for name, (arm_paths, first_stmt) in arms.items():
         E = Effects(ctx, py, fn, eff, {'self'}, {}, {})
         effs = {}
-        for sp in astpaths.paths(case.body):
+        for sp in arm_paths:
             if sp.end == 'raise':
                 continue
             try:
@@ -435,7 +447,7 @@ def pattern_arms(ctx, py, eff):
                 break
         ctx.ob('pattern-arms', name, ok and bool(effs),
                f'Interpreter.pattern: the {name} arm changes the stack by {sorted(effs)} (recursive calls counted as +1); every arm must '
-               f'leave exactly the built pattern', py.where('interpreter', case.body[0]))
+               f'leave exactly the built pattern', py.where('interpreter', first_stmt))
     ctx.floor('pattern-arms', 10)
 
 
@@ -684,12 +696,16 @@ def memory_map(ctx, py, loop, LV, PROOF, STACK, receivers):
     for n in fn.body:
         if isinstance(n, ast.Assign) and isinstance(n.targets[0], ast.Name):
             env[n.targets[0].id] = n.value
-    outer = [b for b in loop.body if isinstance(b, ast.If) and ast.unparse(b.test) in (f'{LV} not in {PROOF}.labels', f'not {LV} in {PROOF}.labels')]
-    ctx.require(len(outer) == 1, 'exec_proof: save / reuse branch not found')
-    inner = [b for b in outer[0].body if isinstance(b, ast.If) and ast.unparse(b.test) == f'{LV} == 0']
-    ctx.require(len(inner) == 1, 'exec_proof: Z branch not found')
-    zb, rb = inner[0].body, inner[0].orelse
-    where = py.where(TR, inner[0])
+    # the two branches are identified on the paths of the loop body, whatever the nesting / polarity of the tests:
+    # number not among the labels and == 0 -> Z mark; not among the labels and != 0 -> reuse of a saved step
+    sps = [sp for sp in astpaths.paths(loop.body) if sp.holds(f'{LV} in {PROOF}.labels') is False and sp.end != 'raise']
+    zpaths = [sp for sp in sps if sp.holds(f'{LV} == 0') is True]
+    rpaths = [sp for sp in sps if sp.holds(f'{LV} == 0') is False]
+    ctx.require(bool(sps), 'exec_proof: save / reuse branch not found')
+    ctx.require(bool(zpaths) and bool(rpaths), 'exec_proof: Z branch not found')
+    zb = list(dict.fromkeys(a for sp in zpaths for a in sp.actions))
+    rb = list(dict.fromkeys(a for sp in rpaths for a in sp.actions))
+    where = py.where(TR, zb[0] if zb else loop)
     zenv = {s.targets[0].id: s.value for s in zb if isinstance(s, ast.Assign) and isinstance(s.targets[0], ast.Name)}
 
     def resolve(e):
@@ -701,7 +717,7 @@ def memory_map(ctx, py, loop, LV, PROOF, STACK, receivers):
     ok = len(appends) == 1 and len(saves) == 1 and resolve(appends[0].args[0]) == f'{STACK}[-1]' and resolve(saves[0].args[1]) == f'{STACK}[-1]'
     # ... on every path through the branch: the k-th Z opens the k-th slot whatever the marked expression is
     every = all(sum(1 for a in sp.actions for c in _own(a) if c in appends) == 1 and sum(1 for a in sp.actions for c in _own(a) if c in saves) == 1
-                for sp in astpaths.paths(zb) if sp.end in ('fall', 'continue'))
+                for sp in zpaths)
     ctx.ob('memory-map', 'Z-saves-top', ok and every,
            'every Z mark must save the entry on top of the stack and remember that same entry, once and unconditionally: the k-th Z opens '
            'the k-th slot, and later reuse numbers count Z marks, not distinct expressions', where)
@@ -721,7 +737,7 @@ def memory_map(ctx, py, loop, LV, PROOF, STACK, receivers):
         detail = detail or f'found index {idxs[0] if idxs else "?"}, expected {want}'
     ctx.ob('memory-map', 'reuse-index', ok,
            f'numbers above len(labels) denote the saved steps in order: number k reloads saved entry k - len(labels) - 1 (0-based); {detail}',
-           py.where(TR, rb[0] if rb else inner[0]))
+           py.where(TR, rb[0] if rb else loop))
     ctx.floor('memory-map', 2)
 
 
